@@ -713,14 +713,53 @@ def acquire_release_to_with(tree, stats):
   ast.fix_missing_locations(tree)
 
 
+def fold_display_subscripts(tree, stats):
+  """`(a, b)[0]` is `a` when every element is pure (nothing is lost by not evaluating the others)."""
+  for n in ast.walk(tree):
+    for fld, v in ast.iter_fields(n):
+      vs = v if isinstance(v, list) else [v]
+      for i, x in enumerate(vs):
+        if (isinstance(x, ast.Subscript) and isinstance(x.ctx, ast.Load) and isinstance(x.value, (ast.Tuple, ast.List)) and isinstance(x.slice, ast.Constant)
+            and isinstance(x.slice.value, int) and 0 <= x.slice.value < len(x.value.elts) and not any(isinstance(e, ast.Starred) for e in x.value.elts)
+            and all(_is_pure(e) for e in x.value.elts)):
+          new = x.value.elts[x.slice.value]
+          if isinstance(v, list):
+            v[i] = new
+          else:
+            setattr(n, fld, new)
+          stats['spliced'] = stats.get('spliced', 0) + 1
+
+
+def merge_list_extend(fnode, base_names, stats):
+  """`L = [a, b]` directly followed by `L.extend(E)` (L a new local): `L = [a, b, *E]`, which the temporary inlining and the starred-literal
+  splice then put where L is used (`pack(fmt, *L)` -> `pack(fmt, a, b, *E)`)."""
+  for b in _blocks(fnode):
+    k = 0
+    while k + 1 < len(b):
+      s1, s2 = b[k], b[k + 1]
+      if (isinstance(s1, ast.Assign) and len(s1.targets) == 1 and isinstance(s1.targets[0], ast.Name) and s1.targets[0].id not in base_names
+          and isinstance(s1.value, ast.List) and isinstance(s2, ast.Expr) and isinstance(s2.value, ast.Call) and isinstance(s2.value.func, ast.Attribute)
+          and s2.value.func.attr in ('extend', 'append') and isinstance(s2.value.func.value, ast.Name) and s2.value.func.value.id == s1.targets[0].id
+          and len(s2.value.args) == 1 and not s2.value.keywords
+          and not any(isinstance(n, ast.Name) and n.id == s1.targets[0].id for n in ast.walk(s2.value.args[0]))):
+        a = s2.value.args[0]
+        s1.value.elts.append(a if s2.value.func.attr == 'append' else ast.Starred(value=a, ctx=ast.Load()))
+        del b[k + 1]
+        stats['spliced'] = stats.get('spliced', 0) + 1
+        continue
+      k += 1
+  ast.fix_missing_locations(fnode)
+
+
 def splice_starred_literals(tree, stats):
   """f(a, *(b, c))  is  f(a, b, c)."""
+  fold_display_subscripts(tree, stats)
   for n in ast.walk(tree):
     if isinstance(n, ast.Call) and any(isinstance(a, ast.Starred) and isinstance(a.value, (ast.Tuple, ast.List)) for a in n.args):
       out = []
       for a in n.args:
-        if isinstance(a, ast.Starred) and isinstance(a.value, (ast.Tuple, ast.List)) and not any(isinstance(e, ast.Starred) for e in a.value.elts):
-          out.extend(a.value.elts)
+        if isinstance(a, ast.Starred) and isinstance(a.value, (ast.Tuple, ast.List)):
+          out.extend(a.value.elts)        # (a starred element stays starred: f(*[a, *E]) is f(a, *E))
           stats['spliced'] = stats.get('spliced', 0) + 1
         else:
           out.append(a)
@@ -1453,6 +1492,185 @@ def lower_dict_dispatch(fnode, bsrc, stats):
   ast.fix_missing_locations(fnode)
 
 
+def restore_tuple_unpacking(fnode, bsrc, base_names, stats):
+  """The reference unpacks a call result / loop element into names (`a, b, c = f(x)`, `for s, _, _ in m.values()`, `n, = unpack(..)`); the current
+  function keeps the tuple in a new local and indexes it with constants (`t = f(x) ... t[1]`, `for e in m.values(): e[0]`, `n = unpack(..)[0]`):
+  the unpacking form again, with the reference's names -- same evaluation, and an arity error surfaces at the same statement only for tuples of
+  another length than the reference already requires."""
+  base_assign, base_for = {}, {}
+  for n in ast.walk(bsrc):
+    if isinstance(n, ast.Assign) and len(n.targets) == 1 and isinstance(n.targets[0], ast.Tuple) and all(isinstance(e, ast.Name) for e in n.targets[0].elts) and isinstance(n.value, ast.Call):
+      base_assign.setdefault(ast.unparse(n.value), [e.id for e in n.targets[0].elts])
+    elif isinstance(n, ast.For) and isinstance(n.target, ast.Tuple) and all(isinstance(e, ast.Name) for e in n.target.elts):
+      base_for.setdefault(ast.unparse(n.iter), [e.id for e in n.target.elts])
+  if not base_assign and not base_for:
+    return
+  stores = {}
+  for n in own_nodes(fnode):
+    if isinstance(n, ast.Name) and isinstance(n.ctx, (ast.Store, ast.Del)):
+      stores[n.id] = stores.get(n.id, 0) + 1
+  params = set(params_of(fnode))
+
+  def usable(names, t):
+    real = [x for x in names if x != '_']
+    if len(set(real)) != len(real):
+      return False
+    for k_, x in enumerate(names):
+      if x == '_' or x == t:
+        continue
+      if x in params:
+        return False
+      if stores.get(x, 0) == 0:
+        continue
+      # the name may already exist as exactly `x = t[k]` (the element given its reference name by hand)
+      own = [n for n in own_nodes(fnode) if isinstance(n, ast.Assign) and len(n.targets) == 1 and isinstance(n.targets[0], ast.Name) and n.targets[0].id == x]
+      if not (stores.get(x) == 1 and len(own) == 1 and isinstance(own[0].value, ast.Subscript) and isinstance(own[0].value.value, ast.Name) and own[0].value.value.id == t
+              and isinstance(own[0].value.slice, ast.Constant) and own[0].value.slice.value == k_):
+        return False
+    return True
+
+  starred_uses = {}
+
+  def index_uses(scope_nodes, t):
+    loads = [n for s_ in scope_nodes for n in ast.walk(s_) if isinstance(n, ast.Name) and n.id == t and isinstance(n.ctx, ast.Load)]
+    subs = [n for s_ in scope_nodes for n in ast.walk(s_) if isinstance(n, ast.Subscript) and isinstance(n.value, ast.Name) and n.value.id == t
+            and isinstance(n.slice, ast.Constant) and isinstance(n.slice.value, int) and n.slice.value >= 0 and isinstance(n.ctx, ast.Load)]
+    # f(*t): the whole tuple handed on, in order
+    stars = [(c, a) for s_ in scope_nodes for c in ast.walk(s_) if isinstance(c, ast.Call) for a in c.args
+             if isinstance(a, ast.Starred) and isinstance(a.value, ast.Name) and a.value.id == t]
+    if len(loads) != len(subs) + len(stars) or not (subs or stars):
+      return None
+    starred_uses[t] = stars
+    return subs
+
+  def expand_stars(t, names):
+    for c, a in starred_uses.get(t, []):
+      k_ = [j for j, x in enumerate(c.args) if x is a][0]
+      c.args[k_:k_ + 1] = [ast.copy_location(ast.Name(id=nm, ctx=ast.Load()), a) for nm in names]
+  for b in _blocks(fnode):
+    for i, st in enumerate(b):
+      # (c)  n = call[0]   ->   n, = call
+      if (isinstance(st, ast.Assign) and len(st.targets) == 1 and isinstance(st.value, ast.Subscript) and isinstance(st.value.value, ast.Call)
+          and isinstance(st.value.slice, ast.Constant) and st.value.slice.value == 0 and len(base_assign.get(ast.unparse(st.value.value), [])) == 1):
+        st.targets = [ast.Tuple(elts=[st.targets[0]], ctx=ast.Store())]
+        st.value = st.value.value
+        stats['unpacking_restored'] = stats.get('unpacking_restored', 0) + 1
+        continue
+      # (a)  t = call ... t[k]
+      if (isinstance(st, ast.Assign) and len(st.targets) == 1 and isinstance(st.targets[0], ast.Name) and isinstance(st.value, ast.Call)
+          and st.targets[0].id not in base_names and stores.get(st.targets[0].id) == 1 and ast.unparse(st.value) in base_assign):
+        t = st.targets[0].id
+        names = base_assign[ast.unparse(st.value)]
+        subs = index_uses([fnode], t)
+        if subs is None or not usable(names, t) or any(x.slice.value >= len(names) for x in subs) or any(names[x.slice.value] == '_' for x in subs):
+          continue
+        if starred_uses.get(t) and '_' in names:
+          continue
+        for x in subs:
+          _replace_node(fnode, x, ast.copy_location(ast.Name(id=names[x.slice.value], ctx=ast.Load()), x))
+        expand_stars(t, names)
+        st.targets = [ast.Tuple(elts=[ast.Name(id=nm, ctx=ast.Store()) for nm in names], ctx=ast.Store())]
+        for nm in names:
+          stores[nm] = stores.get(nm, 0) + 1
+        stats['unpacking_restored'] = stats.get('unpacking_restored', 0) + 1
+        continue
+      # (b)  for e in it: ... e[k]
+      if isinstance(st, ast.For) and isinstance(st.target, ast.Name) and st.target.id not in base_names and stores.get(st.target.id) == 1 and ast.unparse(st.iter) in base_for:
+        t = st.target.id
+        names = base_for[ast.unparse(st.iter)]
+        subs = index_uses(st.body + st.orelse, t)
+        outside = [n for n in ast.walk(fnode) if isinstance(n, ast.Name) and n.id == t and isinstance(n.ctx, ast.Load) and not any(n is y for s_ in st.body + st.orelse for y in ast.walk(s_))]
+        if subs is None or outside or not usable(names, t) or any(x.slice.value >= len(names) for x in subs) or any(names[x.slice.value] == '_' for x in subs):
+          continue
+        if starred_uses.get(t) and '_' in names:
+          continue
+        expand_stars(t, names)
+        for x in subs:
+          _replace_node(fnode, x, ast.copy_location(ast.Name(id=names[x.slice.value], ctx=ast.Load()), x))
+        st.target = ast.Tuple(elts=[ast.Name(id=nm, ctx=ast.Store()) for nm in names], ctx=ast.Store())
+        for nm in names:
+          stores[nm] = stores.get(nm, 0) + 1
+        stats['unpacking_restored'] = stats.get('unpacking_restored', 0) + 1
+  ast.fix_missing_locations(fnode)
+
+
+def unroll_constant_comprehensions(fnode, bsrc, stats):
+  """`[E(s) for s in (c1, c2, c3)]` over a display of constants, in a function whose reference version has no comprehension: the display
+  `[E(c1), E(c2), E(c3)]` (E pure), with `x >> 0`, `x << 0`, `x + 0`, `x * 1` folded to `x`."""
+  if any(isinstance(n, (ast.ListComp, ast.GeneratorExp, ast.SetComp, ast.DictComp)) for n in ast.walk(bsrc)):
+    return
+  for n in ast.walk(fnode):
+    for fld, v in ast.iter_fields(n):
+      vs = v if isinstance(v, list) else [v]
+      for i, x in enumerate(vs):
+        if (isinstance(x, ast.ListComp) and len(x.generators) == 1 and not x.generators[0].ifs and not x.generators[0].is_async
+            and isinstance(x.generators[0].target, ast.Name) and isinstance(x.generators[0].iter, (ast.Tuple, ast.List))
+            and 1 <= len(x.generators[0].iter.elts) <= 8 and all(isinstance(e, ast.Constant) for e in x.generators[0].iter.elts) and _is_pure(x.elt)):
+          var = x.generators[0].target.id
+          elts = []
+          for c in x.generators[0].iter.elts:
+            e = _Subst({var: c}).visit(copy.deepcopy(x.elt))
+            elts.append(_fold_identities(e))
+          new = ast.copy_location(ast.List(elts=elts, ctx=ast.Load()), x)
+          if isinstance(v, list):
+            v[i] = new
+          else:
+            setattr(n, fld, new)
+          stats['unrolled'] = stats.get('unrolled', 0) + 1
+  ast.fix_missing_locations(fnode)
+
+
+def _fold_identities(e):
+  class T(ast.NodeTransformer):
+    def visit_BinOp(self, n):
+      self.generic_visit(n)
+      r = n.right
+      if isinstance(r, ast.Constant) and isinstance(r.value, int) and not isinstance(r.value, bool):
+        if r.value == 0 and isinstance(n.op, (ast.RShift, ast.LShift, ast.Add, ast.Sub, ast.BitOr, ast.BitXor)):
+          return n.left
+        if r.value == 1 and isinstance(n.op, (ast.Mult, ast.FloorDiv)):
+          return n.left
+      return n
+  return T().visit(e)
+
+
+def raise_append_loops(fnode, bsrc, stats):
+  """`acc = []` directly followed by `for T in IT: [if C:] acc.append(E)` (nothing else in the loop), in a function whose reference version has
+  comprehensions and no such accumulation loop: the comprehension `acc = [E for T in IT if C]` again (the same calls in the same order; the list
+  is complete before anything else sees it in both forms).  Also `for T in IT: CALL(..)` for a reference that has the side-effect comprehension
+  `[CALL(..) for T in IT]` is left alone: the loop form is what the rules read."""
+  if not any(isinstance(n, (ast.ListComp, ast.GeneratorExp)) for n in ast.walk(bsrc)):
+    return
+  if any(isinstance(n, ast.For) and len(n.body) == 1 and any(isinstance(c, ast.Call) and isinstance(c.func, ast.Attribute) and c.func.attr == 'append' for c in ast.walk(n.body[0]))
+         for n in ast.walk(bsrc)):
+    return
+  for b in _blocks(fnode):
+    k = 0
+    while k + 1 < len(b):
+      s1, s2 = b[k], b[k + 1]
+      if (isinstance(s1, ast.Assign) and len(s1.targets) == 1 and isinstance(s1.targets[0], ast.Name) and isinstance(s1.value, ast.List) and not s1.value.elts
+          and isinstance(s2, ast.For) and not s2.orelse and len(s2.body) == 1):
+        acc = s1.targets[0].id
+        inner = s2.body[0]
+        conds = []
+        while isinstance(inner, ast.If) and not inner.orelse and len(inner.body) == 1:
+          conds.append(inner.test)
+          inner = inner.body[0]
+        if (isinstance(inner, ast.Expr) and isinstance(inner.value, ast.Call) and isinstance(inner.value.func, ast.Attribute) and inner.value.func.attr == 'append'
+            and isinstance(inner.value.func.value, ast.Name) and inner.value.func.value.id == acc and len(inner.value.args) == 1 and not inner.value.keywords
+            and not any(isinstance(n, ast.Name) and n.id == acc for n in ast.walk(inner.value.args[0]))
+            and not any(isinstance(n, ast.Name) and n.id == acc for c in conds for n in ast.walk(c))
+            and not any(isinstance(n, ast.Name) and n.id == acc for n in ast.walk(s2.iter))
+            and not any(isinstance(n, (ast.Yield, ast.YieldFrom, ast.Await)) for n in ast.walk(s2))):
+          comp = ast.ListComp(elt=inner.value.args[0], generators=[ast.comprehension(target=s2.target, iter=s2.iter, ifs=conds, is_async=0)])
+          s1.value = ast.copy_location(comp, s1.value)
+          del b[k + 1]
+          stats['loops_raised'] = stats.get('loops_raised', 0) + 1
+          continue
+      k += 1
+  ast.fix_missing_locations(fnode)
+
+
 def lower_new_listcomps(fnode, bsrc, base_names, stats):
   """The reference function builds a list with an explicit loop (`acc = []; for ...: acc.append(E)`) and has no list comprehension;
   a list comprehension of the current function (evaluated before anything else of its statement that has effects) is written out
@@ -1815,6 +2033,7 @@ def rename_function(fnode, rel, qualname, base_funcs, stats):
     try:
       drop_self_assignments(fnode, stats)
       split_chained_assigns(fnode, base_names, stats)
+      merge_list_extend(fnode, base_names, stats)
       merge_name_aliases(fnode, base_names, stats)
       restore_while_tests(fnode, set(base.get('whiles', [])), stats)
       merge_flag_or(fnode, base_names, stats)
@@ -1822,6 +2041,10 @@ def rename_function(fnode, rel, qualname, base_funcs, stats):
       loop_flag_to_break(fnode, base_names, stats)
       if bsrc is not None:
         keywords_to_positional(fnode, bsrc, stats)
+        raise_append_loops(fnode, bsrc, stats)
+        unroll_constant_comprehensions(fnode, bsrc, stats)
+        restore_tuple_unpacking(fnode, bsrc, base_names, stats)
+        drop_self_assignments(fnode, stats)
         box_nonlocals(fnode, bsrc, stats)
         lower_new_next(fnode, bsrc, stats)
         restore_tail_recursion(fnode, bsrc, stats)
